@@ -144,13 +144,14 @@ func runC05(c *eng.Ctx, thorough bool) {
 	c.Clause("R1", "C05.2")
 	calc, _ := c.P.StaticCallee("framework.CalculateTTL")
 	sites := c.P.FindCalls(calc, func(fn *ssa.Function) bool { return eng.InPkg(fn, "vault") })
-	c.CallerTable("framework.CalculateTTL in the core", sites, map[string]string{
+	// (a helper called only by tabled functions, never used as a value, holds its callers' role)
+	c.CallerTable("framework.CalculateTTL in the core", sites, c18WithHelpers(c, sites, map[string]string{
 		"vault.(*Core).LoginCreateToken":         "login token TTL",
 		"vault.(*Core).handleRequest":            "leased secret TTL",
 		"vault.(*ExpirationManager).Renew":       "secret renewal",
 		"vault.(*ExpirationManager).RenewToken":  "token renewal",
 		"vault.(*TokenStore).handleCreateCommon": "child token TTL",
-	}, 5)
+	}), 5)
 	for _, fn := range []string{"vault.(*ExpirationManager).Renew", "vault.(*ExpirationManager).RenewToken"} {
 		f := c.Fn(fn)
 		if f == nil {
@@ -486,12 +487,13 @@ func runC05(c *eng.Ctx, thorough bool) {
 	}
 	c.Clause("R1", "C05.5")
 	if m, miss := c.P.StaticCallee("vault.(*ExpirationManager).Restore"); len(miss) == 0 {
-		c.CallerTable("ExpirationManager.Restore", c.P.FindCalls(m, nil), map[string]string{
+		restoreSites := c.P.FindCalls(m, nil)
+		c.CallerTable("ExpirationManager.Restore", restoreSites, c18WithHelpers(c, restoreSites, map[string]string{
 			"vault.(*Core).setupExpiration":           "post-unseal / leadership",
 			"vault.(*Core).namespaceSetup":            "namespace unseal",
 			"vault.(*NamespaceStore).unsealNamespace": "namespace unseal",
 			"vault.(*SealManager).UnsealNamespace":    "namespace unseal",
-		}, 1)
+		}), 1)
 	}
 
 	// ---------- C05.6 bounded retries then irrevocable
